@@ -258,3 +258,91 @@ fn c14_tiny_elf_soname() {
     kani::cover!(r.is_ok(), "reached");
     core::mem::forget(r);
 }
+
+// ---- SONAME through the program headers: where is the dynamic string table looked up? ----
+// DT_STRTAB holds a VIRTUAL ADDRESS.  In target memory it is read at that address (relative to the
+// module's load address); in the FILE it has to be translated to a file offset through the PT_LOAD
+// segment that contains it ("reading the same module from target memory and from its file gives the
+// same answers").  goblin's header parsing and the C-string conversion are not the subject: the program
+// headers are handed in (scripted), `read_name_from_strtab` is replaced by a logger; `read_segment`,
+// the dynamic-entry iterator and the selection logic are real.
+pub static mut PH_LOAD_OFF: u64 = 0;
+pub static mut PH_LOAD_VADDR: u64 = 0;
+pub static mut PH_LOAD_SIZE: u64 = 0;
+pub static mut PH_DYN_OFF: u64 = 0;
+pub static mut PH_DYN_VADDR: u64 = 0;
+pub static mut STRTAB_LOG_N: usize = 0;
+pub static mut STRTAB_LOG: (u64, u64, u64) = (0, 0, 0);
+
+pub fn stub_read_program_headers<'buf>(_this: &mut ModuleReader<'buf>) -> Result<elf::ProgramHeaders, crate::errors::ModuleReaderError>
+where
+    'buf: 'buf,
+{
+    use goblin::elf::program_header::{ProgramHeader, PT_DYNAMIC, PT_LOAD};
+    unsafe {
+        let mut v: Vec<ProgramHeader> = Vec::with_capacity(3);
+        // a first segment that does not contain the table (offset == vaddr, as in most files)
+        v.push(ProgramHeader { p_type: PT_LOAD, p_flags: 4, p_offset: 0, p_vaddr: 0, p_paddr: 0, p_filesz: 16, p_memsz: 16, p_align: 16 });
+        v.push(ProgramHeader { p_type: PT_LOAD, p_flags: 6, p_offset: PH_LOAD_OFF, p_vaddr: PH_LOAD_VADDR, p_paddr: PH_LOAD_VADDR, p_filesz: PH_LOAD_SIZE, p_memsz: PH_LOAD_SIZE, p_align: 16 });
+        v.push(ProgramHeader { p_type: PT_DYNAMIC, p_flags: 6, p_offset: PH_DYN_OFF, p_vaddr: PH_DYN_VADDR, p_paddr: PH_DYN_VADDR, p_filesz: 64, p_memsz: 64, p_align: 8 });
+        Ok(v)
+    }
+}
+pub fn stub_read_name_log<'buf>(_this: &mut ModuleReader<'buf>, strtab_offset: u64, strtab_size: u64, name_offset: u64) -> Result<String, crate::errors::ModuleReaderError>
+where
+    'buf: 'buf,
+{
+    unsafe {
+        STRTAB_LOG_N += 1;
+        STRTAB_LOG = (strtab_offset, strtab_size, name_offset);
+    }
+    Ok(String::with_capacity(1))
+}
+fn put_dyn(buf: &mut [u8], at: usize, tag: u64, val: u64) {
+    buf[at..at + 8].copy_from_slice(&tag.to_le_bytes());
+    buf[at + 8..at + 16].copy_from_slice(&val.to_le_bytes());
+}
+
+/// File image (128 bytes): dynamic section at file offset 16 (four entries); the second load segment
+/// maps file offset `lo` to virtual address `lv` (symbolic, 16-byte granules); DT_STRTAB = `lv + d`.
+#[kani::proof]
+#[kani::unwind(10)]
+#[kani::stub(crate::linux::module_reader::ModuleReader::read_program_headers, crate::verif::c14_module_reader::stub_read_program_headers)]
+#[kani::stub(crate::linux::module_reader::ModuleReader::read_name_from_strtab, crate::verif::c14_module_reader::stub_read_name_log)]
+#[kani::stub(std::fmt::format, crate::verif::env::stub_format)]
+fn c14_soname_strtab_address_in_file() {
+    let lo: u64 = kani::any();
+    let lv: u64 = kani::any();
+    let d: u64 = kani::any();
+    let size: u64 = kani::any();
+    let name: u64 = kani::any();
+    kani::assume(lo % 16 == 0 && lo >= 80 && lo <= 96);
+    kani::assume(lv % 16 == 0 && lv >= 0x1000 && lv <= 0x7fff_ffff_0000);
+    kani::assume(d < 16 && size >= 1 && size <= 16 - d && name < size);
+    let mut image = [0u8; 128];
+    put_dyn(&mut image, 16, elf::dynamic::DT_STRTAB, lv + d);
+    put_dyn(&mut image, 32, elf::dynamic::DT_STRSZ, size);
+    put_dyn(&mut image, 48, elf::dynamic::DT_SONAME, name);
+    put_dyn(&mut image, 64, elf::dynamic::DT_NULL, 0);
+    unsafe {
+        PH_LOAD_OFF = lo;
+        PH_LOAD_VADDR = lv;
+        PH_LOAD_SIZE = 32;
+        PH_DYN_OFF = 16;
+        PH_DYN_VADDR = 0x900;
+        STRTAB_LOG_N = 0;
+    }
+    let header: elf::Header = unsafe { core::mem::zeroed() };
+    let mut rd = ModuleReader::verif_from_parts(ProcessMemory::Slice(&image), header, Ctx::new(Container::Big, Endian::Little));
+    let r = rd.soname_from_program_headers();
+    assert!(r.is_ok(), "a well-formed dynamic section yields a SONAME");
+    unsafe {
+        assert_eq!(STRTAB_LOG_N, 1);
+        assert_eq!(STRTAB_LOG.0, lo + d, "in a FILE the string table is read at the file offset of its virtual address");
+        assert_eq!(STRTAB_LOG.1, size);
+        assert_eq!(STRTAB_LOG.2, name);
+    }
+    kani::cover!(lo + d != lv + d, "file offset differs from the virtual address");
+    core::mem::forget(r);
+    core::mem::forget(rd);
+}
